@@ -1,5 +1,6 @@
 #!/usr/bin/env python3
-"""Builds /verif/mutation/controls from the mutation campaigns: every single-site mutant that compiles, passes the
+"""Builds /verif/mutation/controls from the mutation campaigns (at most 40 controls per property, the mutants that no check
+reported on first contact first): every single-site mutant that compiles, passes the
 66 tests (campaign result SURVIVED, i.e. the tests do not notice it) and is reported by the checker becomes a positive
 control of the thorough tier (patch.diff + meta.json with the reporting rules per property).
 usage: make_mutation_controls.py <set>:<campaign.tsv> ...   (e.g. 1:mutation/campaign1.tsv 2:mutation/campaign2.tsv)"""
@@ -36,18 +37,17 @@ def one(job):
                     det[m.group(1)].append(m.group(3))
         if not det:
             return None
-        p = subprocess.run(['diff', '-ruN', '--label', 'a', '--label', 'b', d + '.orig', d], capture_output=True, text=True).stdout
-        # rewrite headers to git style a/<file> b/<file>
-        p = re.sub(r'^diff -ruN .*? (\S+)\.orig/(\S+) \S+$', lambda m: 'diff --git a/%s b/%s' % (m.group(2), m.group(2)), p, flags=re.M)
-        files = re.findall(r'^diff --git a/(\S+) b/', p, flags=re.M)
-        lines, fi = [], 0
-        for l in p.splitlines():
-            if l == '--- a':
-                lines.append('--- a/' + files[fi]); continue
-            if l == '+++ b':
-                lines.append('+++ b/' + files[fi]); fi += 1; continue
-            lines.append(l)
-        return (mset, n, desc, det, '\n'.join(lines) + '\n')
+        q = subprocess.run(['diff', '-rq', d + '.orig', d], capture_output=True, text=True).stdout
+        patch = ''
+        for l in q.splitlines():
+            m = re.match(r'^Files (\S+) and (\S+) differ$', l)
+            if not m:
+                continue
+            rel = os.path.relpath(m.group(2), d)
+            patch += subprocess.run(['diff', '-u', '--label', 'a/' + rel, '--label', 'b/' + rel, m.group(1), m.group(2)], capture_output=True, text=True).stdout
+        if not patch:
+            return None
+        return (mset, n, desc, det, patch)
     finally:
         shutil.rmtree(d, ignore_errors=True); shutil.rmtree(d + '.orig', ignore_errors=True)
 jobs = []
@@ -55,14 +55,23 @@ for a in sys.argv[1:]:
     mset, path = a.split(':', 1)
     for r in rows(path):
         f = r.split('\t')
-        if f[-1].strip() == 'SURVIVED':
+        # set 1 ran the tests before the checks: its "detected" rows passed the tests as well
+        if f[-1].strip() == 'SURVIVED' or (mset == '1' and f[-1].strip().startswith('detected')):
             jobs.append((int(mset), int(f[0]), '\t'.join(f[1:4])))
 shutil.rmtree(out, ignore_errors=True); os.makedirs(out)
 n = 0
+# the mutants no check reported on first contact come first; then at most CAP controls per property
+first = {(int(a.split(':')[0]), int(r.split('\t')[0])) for a in sys.argv[1:] for r in rows(a.split(':', 1)[1]) if r.split('\t')[-1].strip() == 'SURVIVED'}
+jobs.sort(key=lambda j: (0 if (j[0], j[1]) in first else 1, j[0], j[1]))
+CAP = 40
+per = {}
 with ThreadPoolExecutor(max_workers=6) as ex:
     for res in ex.map(one, jobs):
         if not res: continue
         mset, k, desc, det, patch = res
+        det = {p: rs for p, rs in det.items() if per.get(p, 0) < CAP}
+        if not det: continue
+        for p in det: per[p] = per.get(p, 0) + 1
         mid = 'm%d-%04d' % (mset, k)
         os.makedirs(os.path.join(out, mid))
         open(os.path.join(out, mid, 'patch.diff'), 'w').write(patch)
